@@ -32,7 +32,7 @@ type verifCall struct {
 	start, end int64
 	resp       *dhcpv6.Message
 	err        error
-	ctxErr      error
+	ctxErr     error
 	budget     int64
 }
 
